@@ -14,8 +14,7 @@ FLAKY = ("test_stack.py::TestStack::test_randomized", "TestContentAddressableMem
          "TestBitManipulationFunctions::test_count_leading_zeros", "TestBitManipulationFunctions::test_count_trailing_zeros")
 
 
-def main():
-    seedout, seedres = sys.argv[1], sys.argv[2]
+def process(seedout, seedres, lmap):
     suites = []
     for f in sorted(glob.glob(os.path.join(seedres, "suite_*.json"))):
         suites.append((os.path.basename(f), json.load(open(f))))
@@ -23,8 +22,9 @@ def main():
     os.makedirs(dst_root, exist_ok=True)
     rows = []
     for f in sorted(glob.glob(os.path.join(seedres, "C[0-9][0-9][AB].json"))):
-        key = os.path.basename(f)[:-5]
-        pid, L = key[:3], key[3]
+        key0 = os.path.basename(f)[:-5]
+        pid, L = key0[:3], key0[3]
+        key = pid + lmap.get(L, L)
         r = json.load(open(f))
         change, needs = NEEDS.get(key, ("", ""))
         confirmed = r["demo_clean_rc"] == 0 and r["demo_changed_rc"] not in (0, None) and r["apply_rc"] == 0
@@ -58,10 +58,23 @@ def main():
                     "checks": {c: {"exit": rc, "violation_lines": n, "first_failing_clauses": cl} for c, rc, n, cl in det}}
             json.dump(meta, open(os.path.join(d, "meta.json"), "w"), indent=1)
         rows.append((key, pid, change, needs, confirmed, keep, suite, det))
+    return rows
+
+
+def main():
+    dst_root = os.path.join(HERE, "seeded")
+    rows = []
+    args = sys.argv[1:]
+    # arguments: <seedout> <seedres> [<seedout2> <seedres2>]  (the second pair is stored under the letters C, D)
+    rows += process(args[0], args[1], {})
+    if len(args) >= 4:
+        rows += process(args[2], args[3], {"A": "C", "B": "D"})
+    rows.sort()
     with open(os.path.join(dst_root, "README.md"), "w") as fh:
         fh.write("# Seeded changes\n\nOne directory per kept change: `patch.diff` (apply with `git -C /repo apply`, undo with "
                  "`git -C /repo checkout -- .`), `demo.py` (exit 0 on the clean tree, non-zero with the change), `meta.json`.\n"
-                 "All changes pass the repository's test-suite (apart from the baseline-flaky tests); see `meta.json` for the run.\n\n"
+                 "All changes pass the repository's test-suite (apart from the baseline-flaky tests); see `meta.json` for the run.\n"
+                 "Letters A, B: first round of sub-agents; C, D: second, independent round (some repeat an idea of round 1).\n\n"
                  "| id | change | needs in order to manifest | detected by (exit, first failing clauses) |\n|---|---|---|---|\n")
         for key, pid, change, needs, confirmed, keep, suite, det in rows:
             dets = "; ".join(f"{c}: exit {rc}" + (f" [{cl}]" if cl else "") for c, rc, n, cl in det)
